@@ -499,7 +499,9 @@ def avoid_dead_links(root, machine, wrap_around=False):
                 new_node = lookup[(x, y)]
 
                 # Find the node's current parent and disconnect it.
-                for node in lookup[child]:  # pragma: no branch
+                # NB: the node's current parent may be anywhere in the tree built
+                # so far (earlier repairs move sub-trees), not only below `child`
+                for node in list(lookup.values()):  # pragma: no branch
                     dn = [(d, n) for d, n in node.children if n == new_node]
                     assert len(dn) <= 1
                     if dn:
